@@ -1,5 +1,6 @@
 SPECIFICATION MCSpec
-CONSTANTS Role = FALSE
+CONSTANTS
+  ReadMax = 0 Role = FALSE
  PeerBudget = 2
  UserBudget = 2
  Faults = TRUE
